@@ -108,22 +108,34 @@ def ensure_coq(clean=False, timeout=3000):
         os.remove(stamp)
     return dict(ok=ok, log=log, rebuilt=True, seconds=time.time() - t0)
 
-def coqchk(pid, timeout=3000):
-    """independent re-check of the compiled property file and everything it depends on (thorough tier); cached per state of the sources"""
-    vo = os.path.join(VERIF, "coq", "theories", "Props", pid + ".vo")
-    if not os.path.exists(vo): return dict(ran=False, why="no Props/%s.vo" % pid)
+def coqchk(pid, timeout=5400):
+    """independent re-check (coqchk) of the compiled property files and everything they depend on (thorough tier);
+    cached per state of the sources"""
+    import glob, json, re
+    mods = sorted("HP.Props." + os.path.basename(f)[:-3] for f in glob.glob(os.path.join(VERIF, "coq", "theories", "Props", pid + "*.vo"))
+                  if re.fullmatch(re.escape(pid) + r"(_\w+)?\.vo", os.path.basename(f)))
+    if not mods: return dict(ran=False, why="no compiled Props/%s*.vo" % pid)
     cache = os.path.join(CACHE, "coqchk-%s-%s.json" % (pid, coq_hash()))
-    import json
     if os.path.exists(cache): return json.load(open(cache))
     t0 = time.time()
-    p = subprocess.run(["coqchk", "-silent", "-o", "-Q", "theories", "HP", "HP.Props." + pid], cwd=os.path.join(VERIF, "coq"),
-                       stdout=subprocess.PIPE, stderr=subprocess.STDOUT, timeout=timeout)
-    out = p.stdout.decode(errors="replace")
-    res = dict(ran=True, ok=p.returncode == 0, seconds=round(time.time() - t0, 1), output_tail=out[-3000:])
+    try:
+        p = subprocess.run(["coqchk", "-silent", "-o", "-Q", "theories", "HP"] + mods, cwd=os.path.join(VERIF, "coq"),
+                           stdout=subprocess.PIPE, stderr=subprocess.STDOUT, timeout=timeout)
+        out = p.stdout.decode(errors="replace"); ok = p.returncode == 0
+    except subprocess.TimeoutExpired:
+        out = "coqchk did not finish within %d s" % timeout; ok = None
+    res = dict(ran=True, ok=ok, modules=mods, seconds=round(time.time() - t0, 1), output_tail=out[-3000:])
     os.makedirs(CACHE, exist_ok=True)
     json.dump(res, open(cache, "w"))
     return res
 
+def clean_build_done():
+    """a from-clean build of exactly these sources has already succeeded (thorough tier does one per state of the sources)"""
+    f = os.path.join(CACHE, "coq.clean")
+    return os.path.exists(f) and open(f).read().strip() == coq_hash()
+
+def mark_clean_build():
+    open(os.path.join(CACHE, "coq.clean"), "w").write(coq_hash())
 
 GOLDEN_PROPS = {"balance": ["C03"], "csv": ["C13"], "print": ["C14"], "summary": ["C02", "C07"], "register": ["C02"], "report": ["C07"]}
 
